@@ -25,6 +25,17 @@ Definition from_parents (s : spec) (ps : list value) (child : value) : bool :=
 (** ** monitors *)
 Section MutMon.
   Variable p0 p1 : bool.    (* mutation probability is exactly 0 / exactly 1 *)
+  Variable msc : f64.       (* mutation scale of the call *)
+
+  (** a real leaf that a Cauchy step with probability 1 changes except with negligible
+      probability (< 1e-10): strictly inside its bounds, finite positive step scale not absorbed
+      by the magnitude of the value (scale * mutation_scale >= |x| * 2^-20) *)
+  Definition lively (sc : f64) (mn mx : option f64) (x : f64) : bool :=
+    let s := fmul sc msc in
+    fin s && flt fzero s && fin x &&
+    match mn with Some a => flt a x | None => true end &&
+    match mx with Some b => flt x b | None => true end &&
+    fle (fmul (fmax x (Bopp x)) (of_bits 0x3EB0000000000000)) s.
 
   Definition keyset_delta {A B} (m : list (N * A)) (m' : list (N * B)) : nat * nat :=
     (length (filter (fun k => negb (mem_n k (map fst m))) (map fst m')),
@@ -33,6 +44,8 @@ Section MutMon.
   (** C13 locality (and the discrete part of C17 when [p1]) *)
   Fixpoint mon_mut (strict17 : bool) (s : spec) (v v' : value) {struct s} : bool :=
     match s, v, v' with
+    | SReal _ sc mn mx, VReal x, VReal x' =>
+        negb (strict17 && p1) || negb (lively sc mn mx x) || negb (fbits_eq x x')
     | SBool _, VBool b, VBool b' => negb (strict17 && p1) || negb (Bool.eqb b b')
     | SEnum _ _, VEnum a, VEnum b => negb (strict17 && p1) || negb (String.eqb a b)
     | SSub ms, VSub m, VSub m' =>
@@ -175,7 +188,7 @@ Section Judge.
                 match nth_error acc src with
                 | Some v =>
                     (negb (is_zero mp) || veqb v out) &&
-                    mon_mut (is_one mp) false s v out
+                    mon_mut (is_one mp) fone false s v out
                 | None => false
                 end
             | _ => true
@@ -184,9 +197,9 @@ Section Judge.
   Definition mon_C17 : bool :=
     walk (fun acc x =>
             match x with
-            | OMut src mp _ out =>
+            | OMut src mp ms out =>
                 match nth_error acc src with
-                | Some v => mon_mut (is_one mp) true s v out
+                | Some v => mon_mut (is_one mp) ms true s v out
                 | None => false
                 end
             | _ => true
